@@ -185,7 +185,7 @@ theorem Rx.all_trunc (r : Rx) (haf : r.truncOK = true) : Trunc r.all := by
     subst this
     exact ⟨_, List.mem_singleton.mpr rfl, by simp, by simp⟩
   | fail => intro s s' h; simp [Rx.all] at h
-  | chr cs0 =>
+  | chr cs_1771a1b5 =>
     intro s s' h c hc d e hde p n cs
     simp only [Rx.all] at h
     split at h
@@ -251,7 +251,7 @@ theorem Rx.all_trunc (r : Rx) (haf : r.truncOK = true) : Trunc r.all := by
   | ahead r _ => simp [Rx.truncOK] at haf
   | nahead r _ =>
     cases r with
-    | chr cs0 =>
+    | chr cs_1771a1b5 =>
       -- the look-ahead saw either nothing or a character that is still there in the truncated text
       intro s s' h c hc d e hde p n cs
       simp only [Rx.all] at h
@@ -259,7 +259,7 @@ theorem Rx.all_trunc (r : Rx) (haf : r.truncOK = true) : Trunc r.all := by
         revert h
         cases s.rest with
         | nil => simp
-        | cons x t => by_cases hx : cs0.mem x = true <;> simp [hx]
+        | cons x t => by_cases hx : cs_1771a1b5.mem x = true <;> simp [hx]
       subst hs
       have hc0 : c = [] := by
         have := congrArg List.length hc
@@ -270,13 +270,13 @@ theorem Rx.all_trunc (r : Rx) (haf : r.truncOK = true) : Trunc r.all := by
       cases d with
       | nil => simp
       | cons x t =>
-        have hx : cs0.mem x = false := by
+        have hx : cs_1771a1b5.mem x = false := by
           revert h
           rw [hde]
-          by_cases hx : cs0.mem x = true <;> simp [hx]
+          by_cases hx : cs_1771a1b5.mem x = true <;> simp [hx]
         simp [hx]
     | _ => simp [Rx.truncOK] at haf
-  | behind cs0 => simp [Rx.truncOK] at haf
+  | behind cs_1771a1b5 => simp [Rx.truncOK] at haf
   | wordb w => simp [Rx.truncOK] at haf
   | eos => simp [Rx.truncOK] at haf
   | bos => simp [Rx.truncOK] at haf
